@@ -222,7 +222,7 @@ func (p *Program) FileDescriptor() *descriptor.FileDescriptorProto {
 		})
 		for fi, f := range m.Fields {
 			c := " " + f.Name + " holds a " + f.Kind + ".\n"
-			switch fi % 4 {
+			switch f.Num % 4 { // by field number: stable when fields are inserted or reordered
 			case 1:
 				c = " " + f.Name + " is documented\n   over several indented lines\n\n with a blank one.\n"
 			case 2:
